@@ -50,12 +50,16 @@ def corpus():
         "sy|int:int:int:int,int:int:int:int|li 0 x 0 y 1;as 0 x 3;as 0 y 4;li 0 x 0 x 1;as 0 x 5;li 0 l 0 m 1;mu 0 l ex [1,2];mu 0 m rv",
         # known finding: three mutually linked lists (a cycle) apply one delta twice
         "sy|int:int:int:int,int:int:int:int,int:int:int:int|li 0 l 1 l 1;li 1 l 2 l 1;li 0 l 2 l 1;mu 0 l ap 9",
-        # known finding: items handler registered only if the FIRST partner of the trait is a List trait
+        # F61 (repaired): the items handler used to be registered only if the FIRST partner of the trait was a
+        # List trait; the oracle reports `sync-diverged:items-handler-not-registered` if that returns
         "#hook|first-partner-not-a-list",
         # the same inside the model (the first, cross-kind link raises but stays registered)
         "sy|int:int:int:int,int:int:int:int,int:int:int:int|li 0 l 1 x 0;li 0 l 2 l 1;mu 0 l ap 1;mu 2 l ap 5",
-        # ... and after a removal that must also unregister the items handler
+        # ... after a removal that must also unregister the items handler, and mixed removals: the handler stays
+        # while a List partner is left and goes with the last one
         "sy|int:int:int:int,int:int:int:int,int:int:int:int|li 0 l 1 l 1;un 0 l 1 l 1;li 0 l 1 x 0;li 0 l 2 l 1;mu 0 l ap 1",
+        "sy|int:int:int:int,int:int:int:int,int:int:int:int,int:int:int:int|li 0 l 1 l 0;li 0 l 2 x 0;li 0 l 3 l 0;un 0 l 2 x 0;"
+        "mu 0 l ap 1;un 0 l 1 l 0;mu 0 l ap 2;un 0 l 3 l 0;mu 0 l ap 3;li 0 l 2 x 0;li 0 l 1 l 0;mu 0 l ap 4",
         # stale items handler after the partner died: later links still propagate
         "sy|int:int:int:int,int:int:int:int,int:int:int:int,int:int:int:int|li 0 l 1 l 0;ki 1;li 0 l 2 x 0;li 0 l 3 l 0;mu 0 l ap 1",
     ]
@@ -528,10 +532,11 @@ def _run(specs, cmds, objs, recs, swallowed, guard):
 
 
 def _run_hook_case():
-    """Known finding (impl + oracle only): `sync_trait` registers the `_items`
-    handler only when the trait's FIRST partner is a List trait.  With a first
-    partner of another kind, a later List partner linked mutually never sees
-    in-place mutations of this side, although the reverse direction works."""
+    """Finding F61 (impl + oracle only; the Any trait is outside the model):
+    `sync_trait` used to register the `_items` handler only when the trait's
+    FIRST partner was a List trait.  With a first partner of another kind, a
+    later List partner linked mutually never saw in-place mutations of this
+    side, although the reverse direction worked.  Hits if that returns."""
     from traits.api import HasTraits, List, Int, Any
 
     class O(HasTraits):
